@@ -170,6 +170,8 @@ theorem applyOp_noSpinStep (c : Sys) (op : COp) (hel : c.s.ensureLoop = false) :
   | setReady b => exact liftT_noSpinStep _ _
   | setFlush b => exact liftT_noSpinStep _ _
   | fault k => exact ⟨rfl, rfl⟩
+  | faultSkip n => exact ⟨rfl, rfl⟩
+  | selfWake b => exact ⟨rfl, rfl⟩
   | take n => exact take_noSpinStep _ _ _
   | advance n => exact .of_frameA (onAdvance_frameA _ _)
 
